@@ -36,6 +36,7 @@ type Config struct {
 	PathKeys     bool         `json:"pathKeys,omitempty"`   // the key universe holds a key below another key (refused uploads are legitimate on fs)
 	HostBase     bool         `json:"hostBase,omitempty"`   // WithHostBucketBase("sim"): about half of the bucket-addressed requests travel virtual-host style
 	AmzDate      bool         `json:"amzDate,omitempty"`    // requests carry x-amz-date with the simulated clock's current time (always within the skew limit)
+	RawKeys      bool         `json:"rawKeys,omitempty"`    // keys carry \xNN byte escapes: keys that are not valid UTF-8 (which XML listings cannot show; such runs do not list)
 	DirOrder     bool         `json:"dirOrder,omitempty"`   // the simulated disk hands out directory entries in hash order, not by name
 	LateEOF      bool         `json:"lateEOF,omitempty"`    // request bodies report EOF in a separate read (HTTP/2, buffering middleware)
 	LinKeys      []string     `json:"linKeys,omitempty"`    // C07 snapshot runs: the keys of the run
